@@ -1106,6 +1106,20 @@ CASES = [
         file = source_location;""")]),
  dict(name="c01-is_power_of_two-accepts-zero", ids=["C01"], rule="C01.R5e", subs=[("core/MathUtilities.h", "  return (number != 0) && ((number & (number - 1)) == 0);", "  return ((number & (number - 1)) == 0);")]),
  dict(name="c01-max_power_of_two-off-by-one-bit", ids=["C01"], rule="C01.R5e", subs=[("core/MathUtilities.h", "  return (std::numeric_limits<T>::max() >> 1) + 1;", "  return (std::numeric_limits<T>::max() >> 2) + 1;")]),
+ dict(name="c06-prefix-removed-logger-sinks-not-collected", ids=["C06"], rule="C06.R4c", subs=[(BW, """        for (std::shared_ptr<Sink> const& sink : logger->sinks)
+        {
+          Sink* logger_sink_ptr = sink.get();""", """        if (logger->is_valid_logger())
+        for (std::shared_ptr<Sink> const& sink : logger->sinks)
+        {
+          Sink* logger_sink_ptr = sink.get();""")]),
+ dict(name="c06-prefix-erase-without-flush", ids=["C06"], rule="C06.R4h", subs=[(BW, """    if (_logger_manager.has_invalidated_loggers())
+    {
+      // The sinks of a logger that is about to be erased can outlive it, when another logger or the
+      // user still holds them. Flush what was written through it while it is still registered
+      _flush_and_run_active_sinks(false, std::chrono::milliseconds{0});
+    }
+""", "")]),
+ dict(name="c06-flush-before-erase-on-the-wrong-outcome", ids=["C06"], rule="C06.R4h", subs=[(BW, "    if (_logger_manager.has_invalidated_loggers())\n    {\n      // The sinks of a logger", "    if (!_logger_manager.has_invalidated_loggers())\n    {\n      // The sinks of a logger")]),
  dict(name="c10-prefix-notifier-not-normalised", ids=["C10"], rule="C10.R8", subs=[("backend/BackendWorker.h", """    if (!_options.error_notifier)
     {
       // an undefined error_notifier disables the notifications, see BackendOptions::error_notifier
@@ -1159,6 +1173,10 @@ CASES = [
                             logger_name, log_level, log_level_description, log_level_short_code,
                             named_args, log_message, log_statement);
     }""")]),
+ dict(name="c13-prefix-unpatched-time-conversions-cached", ids=["C13"], rule="C13.R3d", subs=[(SFH, "    if ((timestamp < _cached_timestamp) || _has_uncacheable_time_modifier)", "    if (timestamp < _cached_timestamp)"), (SFH, "    _has_uncacheable_time_modifier = _contains_uncacheable_time_modifier(_timestamp_format);\n", "")]),
+ dict(name="c13-scanner-misses-flagged-forms", ids=["C13"], rule="C13.R3e", subs=[(SFH, "      bool const has_flags_or_modifier = (j != (i + 1));", "      bool const has_flags_or_modifier = (j > (i + 2));")]),
+ dict(name="c13-scanner-forgets-percent-c", ids=["C13"], rule="C13.R3e", subs=[(SFH, "      if ((c == 'c') ||\n          (has_flags_or_modifier &&", "      if ((c == 'C') ||\n          (has_flags_or_modifier &&")]),
+ dict(name="c13-flag-computed-before-expansion", ids=["C13"], rule="C13.R3d", subs=[(SFH, "    // We first look for some special format modifiers and replace them\n", "    _has_uncacheable_time_modifier = _contains_uncacheable_time_modifier(_timestamp_format);\n"), (SFH, "    // Conversions that print the time of day without being one of the two-character forms patched\n    // below stay frozen in the pre-formatted string, such formats are always given to strftime\n    _has_uncacheable_time_modifier = _contains_uncacheable_time_modifier(_timestamp_format);\n", "")]),
  dict(name="c13-localtime_rs-calls-gmtime_r", ids=["C13"], rule="C13.R7a", subs=[("core/TimeUtilities.h", "  tm* res = localtime_r(timer, buf);", "  tm* res = gmtime_r(timer, buf);")]),
  dict(name="c13-timegm-via-mktime", ids=["C13"], rule="C13.R7a", subs=[("core/TimeUtilities.h", "  time_t const ret_val = ::timegm(tm);", "  time_t const ret_val = ::mktime(tm);")]),
  dict(name="c13-timegm-failure-returned", ids=["C13"], rule="C13.R7c", subs=[("core/TimeUtilities.h", """  if (QUILL_UNLIKELY(ret_val == (time_t)-1))
